@@ -1,8 +1,17 @@
 package jph
 
-import "fmt"
+import (
+	"fmt"
+	"strings"
+)
 
 // C01 — retrieval returns exactly what the path selects: differential against Spec.
+//
+// What a path selects must not depend on what was parsed before, nor on whether the leading `$`
+// is written: in 20% of the cases a Parse that FAILS half-way (drawn from c19FailPaths: inside a
+// filter operand, a nested filter, a union …) is made right before the case's own Parse, and 10%
+// of the paths whose first step is a name, a wildcard, a bracket or a filter are spelled without
+// the leading `$` (the recorded text of a first dot-name / `*` then lacks its dot, as in C18).
 
 type c01 struct{}
 
@@ -82,6 +91,10 @@ func queryShape(q *Query) string {
 	return "re"
 }
 
+// the failing parses this worker process has made so far (newest last, at most 6): named in the
+// record of a `$`-less case, whose outcome they must not influence
+var c01EarlierFails []string
+
 func (c01) Exec(seed int64, i int, tier string) Record {
 	r := CaseRng(seed, "C01", i)
 	o := DefaultOpts()
@@ -102,11 +115,52 @@ func (c01) Exec(seed int64, i int, tier string) Record {
 		doc = ToJnum(doc)
 	}
 	cfg := Config(false, nil)
+	var extraTags []string
+	info := map[string]interface{}{}
+	if len(p.Steps) > 0 && p.Steps[0].Kind != StDesc && r.Chance(10) {
+		// the leading `$` omitted
+		at := strings.IndexByte(text, '$')
+		first := p.Steps[0]
+		switch {
+		case first.Kind == StChild && !(first.Bracket || !DotSpellable(first.Key)):
+			text = text[:at] + text[at+2:]
+			first.Text = first.Key
+			extraTags = append(extraTags, "spell:name… ($ omitted)")
+		case first.Kind == StWild && !first.Bracket:
+			text = text[:at] + text[at+2:]
+			first.Text = "*"
+			extraTags = append(extraTags, "spell:*… ($ omitted)")
+		case first.Kind == StFilter:
+			text = text[:at] + text[at+1:]
+			extraTags = append(extraTags, "spell:[?(…)]… ($ omitted)")
+		default:
+			text = text[:at] + text[at+1:]
+			extraTags = append(extraTags, "spell:[…]… ($ omitted)")
+		}
+	}
+	dollarless := len(extraTags) > 0
+	if r.Chance(20) {
+		// a Parse that fails half-way right before: whatever it leaves behind must not reach this case
+		fp := c19FailPaths[r.Intn(len(c19FailPaths))]
+		SafeParse(fp.path, &cfg)
+		info["parsed_before (fails)"] = fp.path
+		c01EarlierFails = append(c01EarlierFails, fp.path)
+		if len(c01EarlierFails) > 6 {
+			c01EarlierFails = c01EarlierFails[1:]
+		}
+		extraTags = append(extraTags, "history:failed-parse-before", "history:failed-parse-before:"+fp.kind)
+	}
+	if dollarless && len(c01EarlierFails) > 0 {
+		info["failed_parses_earlier_in_this_process"] = append([]string{}, c01EarlierFails...)
+	}
 	f, out, tree := ParseTree(text, &cfg)
 	if f != nil {
 		out = SafeCall(f, doc)
 	}
-	rec := Record{Text: text, Doc: JSONText(doc), Tags: stepTags(p)}
+	rec := Record{Text: text, Doc: JSONText(doc), Tags: append(stepTags(p), extraTags...)}
+	if len(info) > 0 {
+		rec.Info = info
+	}
 	if jn {
 		rec.Tags = append(rec.Tags, "decode:jnum")
 	}
